@@ -880,6 +880,12 @@ impl SchemaVersion {
     }
 
     pub fn check_compatibility(&self, version: u32) -> Result<(), error::Format> {
+        if version < DATALOG_3_3 && self.contains_v3_3 {
+            return Err(error::Format::DeserializationError(
+                "maps, arrays, null, closures are only supported in datalog v3.3+".to_string(),
+            ));
+        }
+
         if version < DATALOG_3_1 {
             if self.contains_scopes {
                 Err(error::Format::DeserializationError(
@@ -896,10 +902,6 @@ impl SchemaVersion {
             } else {
                 Ok(())
             }
-        } else if version < DATALOG_3_3 && self.contains_v3_3 {
-            Err(error::Format::DeserializationError(
-                "maps, arrays, null, closures are only supported in datalog v3.3+".to_string(),
-            ))
         } else {
             Ok(())
         }
@@ -998,6 +1000,7 @@ fn contains_v3_3_op(expressions: &[Expression]) -> bool {
                     | Binary::LazyOr
                     | Binary::All
                     | Binary::Any
+                    | Binary::Get
                     | Binary::Ffi(_)
             ),
         })
@@ -1010,8 +1013,8 @@ fn contains_v3_3_predicate(predicate: &Predicate) -> bool {
 
 fn contains_v3_3_term(term: &Term) -> bool {
     match term {
-        Term::Null => true,
-        Term::Set(s) => s.contains(&Term::Null),
+        Term::Null | Term::Array(_) | Term::Map(_) => true,
+        Term::Set(s) => s.iter().any(contains_v3_3_term),
         _ => false,
     }
 }
